@@ -346,6 +346,8 @@ pub struct Inner {
     pub steps: u64,
     pub switches: u64,
     pub verdict: Option<Verdict>,
+    /// what every thread was doing at the moment the verdict was reached
+    verdict_states: Vec<String>,
     pub shutdown: bool,
     next_obj: usize,
     pub decisions_rec: Vec<Decision>,
@@ -405,6 +407,11 @@ fn fnv(h: &mut u64, bytes: &[u8]) {
 }
 
 impl Inner {
+    fn snapshot_states(&mut self) {
+        if self.verdict_states.is_empty() {
+            self.verdict_states = self.th.iter().map(|t| t.st.describe()).collect();
+        }
+    }
     fn rnd(&mut self) -> u64 {
         splitmix(&mut self.rng)
     }
@@ -619,6 +626,7 @@ impl World {
                 g.verdict = Some(Verdict::PollLimit);
             }
             if g.verdict.is_some() {
+                g.snapshot_states();
                 g.shutdown = true;
                 self.cv.notify_all();
             }
@@ -636,6 +644,7 @@ impl World {
                     .map(|t| format!("{}:{}", t.name, t.st.describe()))
                     .collect();
                 g.verdict = Some(Verdict::Deadlock(desc.join(", ")));
+                g.snapshot_states();
                 g.shutdown = true;
                 self.cv.notify_all();
                 drop(g);
@@ -920,6 +929,7 @@ where
                 // the engine's main function returned or panicked: the process ends
                 if g.verdict.is_none() {
                     g.verdict = Some(if g.th[0].panicked { Verdict::MainPanicked } else { Verdict::Exit(Ok(())) });
+                    g.snapshot_states();
                 }
                 g.shutdown = true;
                 w.cv.notify_all();
@@ -939,6 +949,7 @@ where
                             .map(|t| format!("{}:{}", t.name, t.st.describe()))
                             .collect();
                         g.verdict = Some(Verdict::Deadlock(desc.join(", ")));
+                        g.snapshot_states();
                         g.shutdown = true;
                         w.cv.notify_all();
                     }
@@ -1244,6 +1255,7 @@ where
         steps: 0,
         switches: 0,
         verdict: None,
+        verdict_states: vec![],
         shutdown: false,
         next_obj: 0,
         decisions_rec: vec![],
@@ -1313,10 +1325,12 @@ where
             verdict = Verdict::Exit(Err(e));
         }
     }
+    let states = std::mem::take(&mut g.verdict_states);
     let threads: Vec<ThInfo> = g
         .th
         .iter()
-        .map(|t| ThInfo {
+        .enumerate()
+        .map(|(ti, t)| ThInfo {
             name: t.name.clone(),
             role: t.role,
             polls: t.polls,
@@ -1326,7 +1340,7 @@ where
             outs_after_false: t.outs_after_false,
             exited: t.exited_at_seq.is_some(),
             panicked: t.panicked,
-            final_state: t.st.describe(),
+            final_state: states.get(ti).cloned().unwrap_or_else(|| t.st.describe()),
         })
         .collect();
     let events = std::mem::take(&mut g.events);
